@@ -193,20 +193,22 @@ class World(object):
             return float(t[1])
         return PYOP[t[1]](self.build_ops(t[2]), self.build_ops(t[3]))
 
-    def add_derived(self, how, t):
+    def add_derived(self, how, t, target=None):
+        """target: number of an existing attribute to re-define in place (add_component_link(link, label=its id))"""
         from glue.core.component_id import ComponentID
         from glue.core.component_link import ComponentLink
         from glue.core.parse import ParsedCommand, ParsedComponentLink
-        lab = self.fresh_label()
+        lab = self.fresh_label() if target is None else None
+        to_id = ComponentID(lab) if target is None else self.objs[target]
         if how == 0:
             link = self.build_ops(t)
-            self.d.add_component(link, lab)
+            self.d.add_component(link, lab if target is None else to_id)
         elif how == 1:
             ids = dedup(leaves(t))
             names = dict((n, self.objs[n].label) for n in ids)
             cmd = tree_str(t, names)
             pc = ParsedCommand(cmd, dict((names[n], self.objs[n]) for n in ids))
-            self.d.add_component_link(ParsedComponentLink(ComponentID(lab), pc))
+            self.d.add_component_link(ParsedComponentLink(to_id, pc), label=None if target is None else to_id)
         else:
             ids = dedup(leaves(t))
 
@@ -221,10 +223,15 @@ class World(object):
                 with np.errstate(all='ignore'):
                     r = np.asarray(ev(t, dict(zip(ids, args))), dtype=float)
                 return r.ravel() if how == 3 else r
-            link = ComponentLink([self.objs[n] for n in ids], ComponentID(lab), using=using)
-            self.d.add_component_link(link)
+            link = ComponentLink([self.objs[n] for n in ids], to_id, using=using)
+            self.d.add_component_link(link, label=None if target is None else to_id)
         before = self.next
         self.register_new()
+        if target is not None:
+            if self.next != before:
+                raise RuntimeError('re-defining an attribute in place created a component')
+            self.defs[target] = (how, t)
+            return target
         if self.next != before + 1:
             raise RuntimeError('add_derived did not create exactly one component')
         self.defs[before] = (how, t)
@@ -401,6 +408,26 @@ class Runner(object):
                     W.base[newn] = W.base.pop(old)
             r['structure'] = W.structure()
             r['oracle'] += check_all_values(W, 'after update_id')
+        elif k == 'redef':
+            before = W.order()
+            try:
+                W.add_derived(op[2], op[3], target=op[1])
+            except Exception as e:
+                r['error'] = type(e).__name__
+            if W.order() != before:
+                r['oracle'].append('re-defining attribute %d in place changed the components: %r, expected %r' % (op[1], W.order(), before))
+            r['structure'] = W.structure()
+            r['oracle'] += check_all_values(W, 'after re-defining an attribute in place')
+        elif k == 'reorder':
+            want = list(op[1])
+            try:
+                d.reorder_components([W.objs[i] for i in want])
+            except Exception as e:
+                r['error'] = type(e).__name__
+            if W.order() != want:
+                r['oracle'].append('reorder_components: components %r, expected %r' % (W.order(), want))
+            r['structure'] = W.structure()
+            r['oracle'] += check_all_values(W, 'after reorder_components')
         elif k == 'query':
             r.update(query(W, op[1], view_from_key(op[2])))
         self.res.append(r)
@@ -547,6 +574,10 @@ def enc_case(case, W):
             ops.append((2, [op[1]]))
         elif op[0] == 'updid':
             ops.append((3, [op[1], op[2]]))
+        elif op[0] == 'redef':
+            ops.append((5, [op[1], op[2], tree_enc(op[3])]))
+        elif op[0] == 'reorder':
+            ops.append((6, [Z(op[1])]))
         else:
             ops.append((4, [op[1], (0, [(1, [e[1][0]]) if e[0] == 1 else (0, e[1]) for e in op[3]])]))
     return enc((1, [Z(case['spec']['shape']), (0, [(0, [n, c]) for n, c in W.model_comps]), (0, ops)]))
@@ -581,12 +612,12 @@ def evaluate(R, cases, stream, done=None):
     for case, (W, res, ok_model), o in zip(cases, reals, outs):
         nq = sum(1 for op in case['ops'] if op[0] == 'query')
         ncmp = sum(r.get('compared', 0) for r in res)
-        maxd = max([depth(op[2]) for op in case['ops'] if op[0] == 'add'] + [0])
-        R.count(repr((case['spec'], case['ops'])), nontrivial=ncmp > 0, stream=stream, depth=maxd, ndim=len(case['spec']['shape']))
+        maxd = max([depth(op[2]) for op in case['ops'] if op[0] == 'add'] + [depth(op[3]) for op in case['ops'] if op[0] == 'redef'] + [0])
+        R.count(repr((case['spec'], case['ops'])), nontrivial=ncmp > 0 or any(op[0] in ('remove', 'redef', 'reorder', 'updid') for op in case['ops']), stream=stream, depth=maxd, ndim=len(case['spec']['shape']))
         for op in case['ops']:
             R.hist['op_kind'][op[0]] += 1
-            if op[0] == 'add':
-                R.hist['defined_by'][['operators', 'parsed text', 'user function', 'user function (ravelled)'][op[1]]] += 1
+            if op[0] in ('add', 'redef'):
+                R.hist['defined_by'][['operators', 'parsed text', 'user function', 'user function (ravelled)'][op[1] if op[0] == 'add' else op[2]]] += 1
         for i, r in enumerate(res):
             if r.get('oracle'):
                 fails.append((case, 'oracle', {'step': i, 'op': case['ops'][i], 'why': r['oracle'][:3]}))
@@ -604,7 +635,7 @@ def evaluate(R, cases, stream, done=None):
             fails.append((case, 'correspondence', {'model': '%d results for %d ops' % (len(mk), len(res))}))
             continue
         for i, (op, r, mt) in enumerate(zip(case['ops'], res, mk)):
-            if op[0] in ('add', 'remove', 'updid'):
+            if op[0] in ('add', 'remove', 'updid', 'redef', 'reorder'):
                 if is_err(mt):
                     fails.append((case, 'correspondence', {'step': i, 'op': op, 'model': 'error %r' % err_code(mt), 'impl': r['structure']}))
                     break
@@ -741,6 +772,8 @@ def jsonable_case(case):
     for op in case['ops']:
         if op[0] == 'add':
             ops.append(['add', op[1], jt(op[2])])
+        elif op[0] == 'redef':
+            ops.append(['redef', op[1], op[2], jt(op[3])])
         else:
             ops.append(list(op))
     return {'spec': spec, 'ops': ops}
@@ -759,6 +792,8 @@ def case_from_json(j):
     for op in j['ops']:
         if op[0] == 'add':
             ops.append(['add', op[1], tj(op[2])])
+        elif op[0] == 'redef':
+            ops.append(['redef', op[1], op[2], tj(op[3])])
         elif op[0] == 'query':
             ops.append(['query', op[1], None if op[2] is None else tuple(tuple(e) if isinstance(e, list) else e for e in op[2])])
         else:
@@ -926,12 +961,28 @@ def stream_random(R):
                 if how == 0 and t[0] == 'cid':
                     t = ('bin', '*', t, ('const', Fraction(1)))
                 do(['add', how, t])
-            elif r < 0.65:
+            elif r < 0.62:
                 do(['remove', rng.choice(live)])
-            elif r < 0.8:
+            elif r < 0.72:
                 tgt = rng.choice(live)
                 res = do(['updid', tgt])
                 expo = [res['new'] if x == tgt else x for x in expo]
+            elif r < 0.84:
+                # re-define a derived attribute in place: it may now depend on attributes positioned after it
+                tgt = rng.choice(derived)
+                avail = [x for x in live if x not in W.closure(tgt)]
+                if avail:
+                    t = force_depth(rng, avail, rng.choice([1, 2, 3]), [e for e in expo if e in avail])
+                    how = rng.choice([0, 1, 2, 3])
+                    if t[0] == 'const' or not leaves(t):
+                        t = ('bin', '+', ('cid', rng.choice(avail)), t)
+                    if how == 0 and t[0] == 'cid':
+                        t = ('bin', '*', t, ('const', Fraction(1)))
+                    do(['redef', tgt, how, t])
+            elif r < 0.94:
+                perm = list(live)
+                rng.shuffle(perm)
+                do(['reorder', perm])
             live = W.order()
             derived = [x for x in live if x in W.defs]
             for _ in range(rng.choice([1, 2, 3])):
@@ -946,7 +997,8 @@ def stream_random(R):
     report(R, fl)
     R.sample({'stream': 'random', 'case': jsonable_case(first_case)})
     R.stream('random', cases=n, exhaustive=False,
-             bound='seeded histories of 3..9 add / remove / update_id steps with 1..3 reads each; trees of depth <= 5; shapes of 1..3 axes with lengths 1..3')
+             bound='seeded histories of 3..9 add / re-define in place / reorder_components (random permutation) / remove / update_id steps with '
+                   '1..3 reads each; trees of depth <= 5; shapes of 1..3 axes with lengths 1..3')
 
 
 def rename_tree(t, old, new):
@@ -994,11 +1046,58 @@ def stream_closure(R):
                 cases.append({'spec': spec, 'ops': adds + [['remove', victim]]})
             cases.append({'spec': spec, 'ops': adds + [['updid', 1], ['remove', nb + len(names)]]})
             cases.append({'spec': spec, 'ops': adds + [['updid', pos['A']], ['query', pos[names[-1]], None], ['remove', 2]]})
-    fl = evaluate(R, cases, 'closure')
+    # ---- position order decoupled from dependency order (a dependent may precede its input)
+    patterns4 = patterns + [{'A': [2], 'B': ['A'], 'C': ['B'], 'D': ['C']}]        # + a chain of depth 4
+    ncoupled = len(cases)
+
+    def real_tree(pat, nm, pos):
+        ins = [pos[x] if isinstance(x, str) else x for x in pat[nm]]
+        t = ('cid', ins[0])
+        for x in ins[1:]:
+            t = ('bin', '+', t, ('cid', x))
+        if t[0] == 'cid':
+            t = ('bin', '*', t, ('const', Fraction(2)))
+        return t
+
+    def topo(pat):
+        done, out = set(), []
+        while len(out) < len(pat):
+            for nm in sorted(pat):
+                if nm not in done and all((not isinstance(x, str)) or x in done for x in pat[nm]):
+                    done.add(nm)
+                    out.append(nm)
+        return out
+    for pi, pat in enumerate(patterns4):
+        names = sorted(pat)
+        order = topo(pat)
+        for perm in itertools.permutations(names):
+            # (a) placeholders in the position order perm, then every attribute re-defined in place in dependency order
+            pos = dict((nm, nb + k) for k, nm in enumerate(perm))
+            ops = [['add', 0, ('bin', '*', ('cid', 1), ('const', Fraction(1)))] for _ in perm]
+            for k, nm in enumerate(order):
+                ops.append(['redef', pos[nm], (k + pi) % 4, real_tree(pat, nm, pos)])
+            for victim in [1, 2] + [pos[nm] for nm in names]:
+                cases.append({'spec': spec, 'ops': ops + [['remove', victim]]})
+            # (b) added in dependency order, then reorder_components puts the derived block in the order perm
+            pos2 = dict((nm, nb + k) for k, nm in enumerate(order))
+            adds = [['add', (k + pi) % 3, real_tree(pat, nm, pos2)] for k, nm in enumerate(order)]
+            block = [pos2[nm] for nm in perm]
+            layouts = [list(range(nb)) + block]
+            if perm == tuple(reversed(order)):
+                layouts.append(block + list(reversed(range(nb))))                 # derived attributes before everything else
+                layouts.append([block[0], 0, block[1], 1, block[2], 2, block[3]])     # interleaved
+            for lay in layouts:
+                for victim in [1, 2] + [pos2[nm] for nm in names]:
+                    cases.append({'spec': spec, 'ops': adds + [['reorder', lay], ['remove', victim]]})
+    fl = []
+    for i in range(0, len(cases), 400):
+        fl += evaluate(R, cases[i:i + 400], 'closure')
     report(R, fl)
-    R.stream('closure', cases=len(cases), exhaustive=True,
-             bound='3 dependency patterns of 4 derived attributes over 2 stored ones, every insertion order compatible with the dependencies, '
-                   'removal of each attribute / update_id of an input followed by removal')
+    R.stream('closure', cases=len(cases), exhaustive=True, insertion_order_cases=ncoupled, decoupled_order_cases=len(cases) - ncoupled,
+             bound='dependency patterns of 4 derived attributes over 2 stored ones (two chains of depth 3 and 4, a diamond, a join); (i) every insertion '
+                   'order compatible with the dependencies; (ii) every one of the 24 position orders of the derived attributes, reached by re-defining '
+                   'placeholders in place (add_component_link(link, label=existing id)) and by reorder_components (derived block permuted, moved in front, '
+                   'interleaved), so that dependents precede their inputs; then removal of each attribute / update_id of an input followed by removal')
 
 
 def stream_fancy(R):
